@@ -150,10 +150,13 @@ class VecObj:
     def model_drop(self, ex):
         for c in self.items: ex.drop(c.v)
 class ChanObj:
-    def __init__(self): self.q = []; self.rx_alive = True
+    def __init__(self, track=False): self.q = []; self.rx_alive = True; self.senders = 0; self.track = track
 class TxObj:
-    def __init__(self, ch): self.ch = ch
-    def model_drop(self, ex): pass
+    """a sender handle; with ch.track the channel counts its live senders (clone +1, drop -1) and the receiver sees the end of
+    the stream when the last one - wherever it is held - is gone"""
+    def __init__(self, ch): self.ch = ch; self.live = True; ch.senders += 1
+    def model_drop(self, ex):
+        if self.live: self.live = False; self.ch.senders -= 1
 def m_vec_len(ex, a, t): return z3.BitVecVal(len(target(a[0]).items), 64)
 def m_vec_is_empty(ex, a, t): return z3.BoolVal(len(target(a[0]).items) == 0)
 def m_vec_push(ex, a, t): target(a[0]).items.append(Cell(a[1])); return UNIT
@@ -365,7 +368,8 @@ class OneshotTx:
     def __init__(self): self.sent = None
     def model_drop(self, ex): pass
 class SleepObj:
-    def __init__(self, deadline): self.deadline = deadline
+    canon_fields = ('deadline', 'polled')
+    def __init__(self, deadline): self.deadline = deadline; self.polled = False     # polled since it was last (re-)armed?
     def model_drop(self, ex): pass
 def m_enumerate(ex, a, t): return IterObj([Tuple([z3.BitVecVal(i, 64), x]) for i, x in enumerate(a[0].items)], a[0].stages)
 def m_into_iter2(ex, a, t):
@@ -393,7 +397,7 @@ def m_pin_get_mut(ex, a, t): return a[0]
 def m_poll_recv(ex, a, t):
     rx = target(a[0])
     if rx.ch.q: return Enum('Poll', 'Ready', [Enum('Option', 'Some', [rx.ch.q.pop(0)])])
-    if not rx.senders_alive: return Enum('Poll', 'Ready', [Enum('Option', 'None')])
+    if not rx.senders_alive or (rx.ch.track and rx.ch.senders == 0): return Enum('Poll', 'Ready', [Enum('Option', 'None')])
     return Enum('Poll', 'Pending')
 def m_oneshot_send(ex, a, t): a[0].sent = a[1]; return Enum('Result', 'Ok', [UNIT])
 def m_sleep(ex, a, t): return SleepObj(ex.clock + a[0])
@@ -401,11 +405,12 @@ def m_box_pin(ex, a, t): return BoxObj(a[0])
 def m_sleep_poll(ex, a, t):
     s = a[0]
     while isinstance(s, Ref): s = s.lv.get()
+    s.polled = True
     return Enum('Poll', 'Ready', [UNIT]) if ex.truth(ex.clock >= s.deadline) else Enum('Poll', 'Pending')
 def m_sleep_reset(ex, a, t):
     s = a[0]
     while isinstance(s, Ref): s = s.lv.get()
-    s.deadline = a[1]; return UNIT
+    s.deadline = a[1]; s.polled = False; return UNIT
 def m_dur_secs(ex, a, t): return z3.simplify(_to_int(a[0]) * 1000)
 def m_elapsed(ex, a, t): return ex.clock - target(a[0])
 def m_dur_ge(ex, a, t): return target(a[0]) >= target(a[1])
@@ -461,3 +466,22 @@ def m_event_token(ex, a, t): return clone_val(target(a[0]).f[0].v)
 def m_usize_from_token(ex, a, t): return a[0].f[0].v
 MODELS[:0] = [(r'(?:^|::)Events::with_capacity$', m_events_new), (r'(?:^|::)Poll::poll$', m_poll_poll), (r'(?:^|::)Events::iter$', m_events_iter),
               (r'(?:^|::)Event::token$', m_event_token), (r'^<usize as From<Token>>::from$', m_usize_from_token)]
+
+
+# ---- coroutines (async blocks) that complete in one resume
+def coroutine_body(ex, co):
+    loc = co.loc()
+    c = [f for n, f in ex.fns.items() if loc in f.types.get(1, '') and f.types.get(1, '').startswith('Pin<&mut {')]
+    if len(c) != 1: raise Unknown('coroutine body for %s -> %d candidates' % (co.ty, len(c)))
+    return c[0]
+def poll_coroutine(ex, co, cx=None):
+    """resume the coroutine once; returns the Poll value of its body"""
+    if co.state != 0: raise Panic('`async fn` resumed after completion')
+    f = coroutine_body(ex, co)
+    return ex.run(f, [Ref(LCell(Cell(co))), cx if cx is not None else Ref(LCell(Cell(ContextObj(WakerObj(0)))))])
+def m_call_once(ex, a, t):
+    f = a[0]
+    if hasattr(f, 'call_once'): return f.call_once(ex)
+    if isinstance(f, ClosureVal): return call_closure(ex, f, list(a[1].f) if hasattr(a[1], 'f') else [])
+    raise Unknown('call_once on %r' % (f,))
+MODELS += [(r'^<F as FnOnce<\(\)>>::call_once$', m_call_once)]
